@@ -45,8 +45,8 @@ def SocksAdapter_handleHandshake : List String := ["io.ReadFull", "io.ReadFull",
 def SocksAdapter_handleHandshake_lits : List Nat := [2, 0, 1]
 def SocksAdapter_handlePasswordAuth : List String := ["io.ReadFull", "io.ReadFull", "io.ReadFull", "io.ReadFull", "conn.Write"]
 def SocksAdapter_handlePasswordAuth_lits : List Nat := [2, 0, 1, 1, 1, 0, 0, 1, 1]
-def SocksAdapter_handleRequest : List String := ["io.ReadFull", "s.sendReply", "io.ReadFull", "s.sendReply", "conn.Read"]
-def SocksAdapter_handleRequest_lits : List Nat := [4, 0, 1, 3, 0, 1, 0, 0, 2]
+def SocksAdapter_handleRequest : List String := ["io.ReadFull", "s.sendReply", "io.ReadFull", "io.ReadFull", "io.ReadFull", "io.ReadFull", "s.sendReply", "io.ReadFull"]
+def SocksAdapter_handleRequest_lits : List Nat := [4, 0, 1, 3, 0, 4, 1, 0, 16, 0, 2]
 def SocksAdapter_handleSocksConnection : List String := ["s.handleHandshake", "s.handleRequest"]
 def SocksAdapter_sendReply : List String := ["net.ParseIP", "ip.To4", "ip.To16", "binary.BigEndian.PutUint16", "conn.Write"]
 def SocksAdapter_sendReply_lits : List Nat := [0, 22, 0, 2]
